@@ -1286,7 +1286,7 @@ class Exec:
             caller = fr
 
             def cont(st2, val, ret_to=ret_to):
-                self.deliver(st2, st2.frames[-1], ret_to, post(val))
+                self.deliver(st2, st2.frames[-1], ret_to, post(val) if post.__code__.co_argcount == 1 else post(st2, val))
             return self.invoke_value(st, fr, ('static', out[1]), out[2], ('cont', cont), pos, ins)
         if isinstance(out, tuple) and len(out) == 3 and out[0] == 'tailcall':
             # the stub delegates to a repo function (e.g. json.Marshal -> MarshalJSON method)
